@@ -9,8 +9,8 @@ INFO = dict(
  stubs=['contract kernel (see C03); fiber_context_destroy replaced by a model that frees the stack object once',
         'the target fiber is created directly in state RUNNING on its own manager (creation is not part of the scenario)'],
  assumptions=['assume-guarantee: the runtime contract of C01/C02 holds for yield/schedule', 'x86-TSO mapping of atomics; -O1 IR of clang-14'],
- bounds='target fiber + 1-2 actors from {join, 2 x tryjoin, detach}; spin bound 1; all interleavings (SC)',
- outside='more than 2 actors; joining maintenance/thread fibers')
+ bounds='target fiber + ONE other fiber acting on it: join, join with a NULL result pointer, 2 x tryjoin, or detach followed by join; spin bound 1; all interleavings (SC) of the actor with the fiber\'s completion and both context switches',
+ outside='two fibers acting on the same fiber concurrently (join+join, join+tryjoin, join/tryjoin+detach): libfiber follows pthreads, where that is undefined - once one actor has succeeded the control block is reclaimed and the other actor\'s accesses cannot be made safe by the library (DESIGN.md section 9); joining maintenance/thread fibers')
 
 J, Y, D, N = 1, 2, 3, 4
 
@@ -33,8 +33,5 @@ def plan(tier, ctx):
     if tier == 'thorough':
         j += cfg('join_noresult', [N], timeout=1500, required=False)
         j += cfg('tryjoin', [Y], timeout=1500, required=False)
-        j += cfg('join_detach', [J, D], timeout=1500, required=False)
-        j += cfg('join_join', [J, J], timeout=1500, required=False)
-        j += cfg('join_tryjoin', [J, Y], timeout=1500, required=False)
-        j += cfg('tryjoin_detach', [Y, D], timeout=1500, required=False)
+        # two CONCURRENT actors on one fiber (join+join, join+tryjoin, join+detach, tryjoin+detach) are not registered: see DESIGN.md section 9
     return j
